@@ -57,7 +57,7 @@ def envCopy : Env :=
               { kind := .slice, str := "[]string", elem := 0 },
               { kind := .slice, str := "[]interface{}", elem := 1 } ],
     assignable := fun a b => a == b || (a == 0 && b == 1), convertible := fun _ _ => false,
-    lookup := fun _ _ => .none, scopeHas := fun _ => false, pkgPath := "p", imports := [], stringTy := 0 }
+    lookup := fun _ _ => .none, pkgPath := "p", imports := [], stringTy := 0 }
 
 def ctxCopy : BCtx := { env := envCopy, eng := { compiles := fun _ => true, search := fun _ _ => false },
                         methodPos := "f.go:1:1", opts := {} }
